@@ -155,3 +155,64 @@ func GenMsgAround(target, delta int, allowInvalid, allowNewline bool) *rapid.Gen
 		return segs
 	})
 }
+
+// Pools for realistic lines (values that make the sample configuration take its branches).
+var (
+	PoolHosts   = []string{"basic-1", "errors", "web1.example.com", "h", "kern.host.com"}
+	PoolApps    = []string{"appServ", "appServ/foo.com", "abandoned", "other", "server-app", "appServ/" + "vhost.co.uk"}
+	PoolSources = []string{"access.log", "auth.log", "main.log", "cron.log:123e4567-e89b-12d3-a456-426614174000", "task.log:0123abcd-ef", "-", "x"}
+	PoolPids    = []string{"1", "51629", "-", "1234567"}
+	PoolSD      = []string{"-", "[meta@1 a=\"b\"]", "[x]"}
+	PoolMsgs    = []string{
+		"[Initializer] - Creating data engines uid=1000",
+		"[ ] - blank class",
+		"GET /cronlog ip=1.2.3.4 user_agent=\"Mozilla/5.0\"",
+		"POST /upload params=",
+		"PUT \"/x\" y params=",
+		"mail from foo.bar@domain.fi,Yes to a_b@c-d.org",
+		"escaped \\n newline \\t tab \\\\ backslash \\q other",
+		"multi\nline\n message",
+		"plain",
+		"[Cls] - ",
+		"ünïcödé 😀 text €",
+		"",
+	}
+)
+
+// GenRealisticLine generates a syslog line from the pools with occasional arbitrary tokens and padded messages
+// (short, around the 1024-byte pooling threshold, and large).
+func GenRealisticLine(t *rapid.T, maxMsg int) SyslogLine {
+	var l SyslogLine
+	l.Pri = GenValidPri.Draw(t, "pri")
+	l.Ver = "1"
+	pick := func(label string, pool []string, maxTok int) []byte {
+		if rapid.IntRange(0, 7).Draw(t, label+"Rnd") == 0 {
+			return GenToken(1, maxTok).Draw(t, label)
+		}
+		return []byte(rapid.SampledFrom(pool).Draw(t, label))
+	}
+	if rapid.IntRange(0, 5).Draw(t, "timeRnd") == 0 {
+		l.Time = GenToken(1, 30).Draw(t, "time")
+	} else {
+		l.Time = []byte(rapid.SampledFrom(ValidTimes).Draw(t, "time"))
+	}
+	l.Host = pick("host", PoolHosts, 40)
+	l.App = pick("app", PoolApps, 40)
+	l.Pid = pick("pid", PoolPids, 10)
+	l.MsgID = pick("msgid", PoolSources, 60)
+	l.SD = pick("sd", PoolSD, 30)
+	msg := rapid.SampledFrom(PoolMsgs).Draw(t, "msg")
+	l.Msg = []Seg{{Raw: []byte(msg), Rep: 1}}
+	switch rapid.IntRange(0, 9).Draw(t, "padKind") {
+	case 0, 1: // around the pooling threshold
+		pad := 1024 - l.HeaderLen() - len(msg) + rapid.IntRange(-3, 3).Draw(t, "padD")
+		if pad > 0 {
+			l.Msg = append(l.Msg, Seg{Raw: []byte(rapid.SampledFrom([]string{"p", "é", "ab "}).Draw(t, "padU")), Rep: pad})
+		}
+	case 2: // large
+		l.Msg = append(l.Msg, Seg{Raw: []byte(rapid.SampledFrom([]string{"x", "€", "y z "}).Draw(t, "padU")), Rep: rapid.IntRange(200, max(201, maxMsg)).Draw(t, "padN")})
+	case 3: // medium
+		l.Msg = append(l.Msg, Seg{Raw: []byte("m"), Rep: rapid.IntRange(1, 300).Draw(t, "padN")})
+	}
+	return l
+}
